@@ -45,6 +45,7 @@ type Soft struct{}
 type Hard struct{}
 type NearMiss struct{ S string } // block-start look-alike at the start of a paragraph continuation line indented >= 5 columns: plain text
 type BS struct{}                 // a literal backslash right before a hard break written with spaces
+type NotLink struct{ Src, HTML string } // link look-alike that lies just outside the rules: plain text (and raw HTML) with a fixed rendering
 
 // URL: pieces with source spelling and resolved value
 type URL struct{ P []Piece }
@@ -216,6 +217,8 @@ func renderInl(in []Inline) string {
 			sb.WriteString(`<a href="mailto:` + esc(urlEsc(v.Addr)) + `">` + esc(v.Addr) + "</a>")
 		case Raw:
 			sb.WriteString(v.S)
+		case NotLink:
+			sb.WriteString(v.HTML)
 		case Soft:
 			sb.WriteString("\n")
 		case Hard:
